@@ -346,12 +346,15 @@ class Facts:
             return raws
         if self.raw.get("crate") != "stretto":
             return raws
-        new_types = {p_ for p_, a_ in self.adts.items() if p_ not in known and str(a_.get("span", {}).get("f", "")).startswith("src/") and "::test" not in p_}
+        # (every plain-data struct of the crate qualifies, old or new: `let mut min_pair = PolicyPair::new(0, 0)` used
+        # as an accumulator is split like a new `MinSample` would be; a local that is never assigned as a whole and
+        # read by field is left alone by split_struct_locals itself)
+        new_types = {p_ for p_, a_ in self.adts.items() if str(a_.get("span", {}).get("f", "")).startswith("src/") and "::test" not in p_}
         if not new_types:
             return raws
         out = []
         for b in raws:
-            if any(l_["ty"] in new_types for l_ in b["locals"]):
+            if any(l_["ty"] in new_types for l_ in b["locals"]) and b["span"]["f"].startswith("src/") and "::test" not in b["path"]:
                 nb, n_ = flatten.split_struct_locals(b, self.adts, lambda ty: ty in new_types)
                 if n_:
                     self.split_structs[b["path"]] = n_
@@ -368,6 +371,14 @@ class Facts:
                 c = self.by_path.get(dp) or self.by_spath.get(strip_generics(dp or "")) or []
                 return c[0].raw if len(c) >= 1 and (dp in self.by_path or len(c) == 1) else None
             raw, n = flatten.desugar_combinators(body.raw, look)
+            if n and self.raw.get("crate") == "stretto" and any(_plain_ty(l_["ty"], self.adts) for l_ in raw["locals"]):
+                # a struct accumulator captured by a closure that is now spliced in: `(*r).f` with `r = &mut acc` is
+                # `acc.f`, and acc can be split into its fields like an uncaptured one
+                raw2, nf = flatten.forward_local_refs(raw)
+                if nf:
+                    raw3, ns = flatten.split_struct_locals(raw2, self.adts, lambda ty: True)
+                    if ns:
+                        raw = raw3
             fb = Body(self, raw) if n else body
             fb.n_desugared = n
             self._flat[body.path] = fb
@@ -1133,6 +1144,11 @@ _NUM_FROM = re.compile(r"^(?:std|core)::convert::num::<impl (?:std|core)::conver
 
 
 _STD_COLL = re.compile(r"(^|[<:\s])(std|alloc|core)::(vec::Vec|collections::(HashMap|HashSet|BTreeMap|BTreeSet|VecDeque|hash_map::HashMap|hash::map::HashMap)|slice::<impl \[T\]>|string::String|str::<impl str>)(::<[^>]*>)?::is_empty$")
+
+
+def _plain_ty(ty, adts):
+    a = adts.get(ty)
+    return bool(a) and a.get("kind") == "Struct" and "<" not in ty and str(a.get("span", {}).get("f", "")).startswith("src/")
 
 
 class TooManyStates(Exception):
